@@ -31,6 +31,9 @@ func (c *powCircuit) Define(api frontend.API) error {
 		v = api.Mul(v, v)
 	}
 	api.AssertIsEqual(v, c.Y)
+	// a few hint-bearing constraints (bit decomposition, is-zero), as the real circuits have
+	bits := api.ToBinary(c.Y, 254)
+	api.AssertIsEqual(api.IsZero(api.Add(bits[0], bits[c.K], 1)), 0)
 	return nil
 }
 
